@@ -274,6 +274,10 @@ def calc_padding_and_skirt(padding_type, kernel, input_shape, explicit_padding):
         raise UnsupportedFeatureError(f"Unsupported padding = {padding_type} for padding calculation")
     padding = (top_pad, left_pad, bottom_pad, right_pad)
     skirt = (top_pad, left_pad, ypad - top_pad, xpad - left_pad)
+    if padding_type == Padding.EXPLICIT:
+        # The padding of a fused PAD can exceed the padding a SAME operation would need (even kernels): the rows and
+        # columns below/right of the kernel position then extend as far as the explicit padding says
+        skirt = (top_pad, left_pad, max(ypad - top_pad, bottom_pad), max(xpad - left_pad, right_pad))
     return padding, skirt
 
 
